@@ -2,6 +2,7 @@
 
 Must be imported with PYTHONPATH=/repo/src so that `treepath` is the working tree's package."""
 import operator
+import os
 import sys
 
 import treepath
@@ -1058,3 +1059,77 @@ def run_ccase(case):
                 raise
             out.append(ON("raise", [oexn(x)]))
     return ON("c", out)
+
+
+# ----------------------------------------------------------------------------- preemption sweep (C07, thread schedules)
+def run_pcase(case):
+    """Two evaluations share one path object.  Evaluation A is preempted at the n-th line executed inside the
+    treepath package (for every n, or a sample), evaluation B then runs to completion on the same path object
+    (what a thread switch at that point would allow), A resumes.  Both must yield what they yield alone."""
+    import treepath as tp
+    pkg = os.path.dirname(os.path.realpath(tp.__file__))
+    cx = Ctx()
+    docA, docB = case['docA'], case['docB']
+    cx.label(docA)
+    cx.label(docB)
+
+    def results(e, d, cap=200):
+        out = []
+        try:
+            for m in find_matches(e, d):
+                out.append((m.path_as_str, m.data_name, id(m.data) if isinstance(m.data, (list, dict)) else repr(m.data)))
+                if len(out) >= cap:
+                    break
+        except Exception as x:  # noqa
+            out.append(('raise', type(x).__name__, repr(oexn(x))))
+        return out
+
+    aloneA = results(_build_path(cx, case['path']), docA)
+    aloneB = results(_build_path(cx, case['path']), docB)
+
+    def traced(n_stop, e):
+        """run A on e, preempting at the n_stop-th line event (None: only count)"""
+        state = {'n': 0, 'rb': None}
+
+        def local(frame, event, arg):
+            if event == 'line':
+                state['n'] += 1
+                if n_stop is not None and state['n'] == n_stop and state['rb'] is None:
+                    sys.settrace(None)
+                    try:
+                        state['rb'] = results(e, docB)
+                    finally:
+                        sys.settrace(glob)
+            return local
+
+        def glob(frame, event, arg):
+            code = frame.f_code
+            # the library's own code, and the user predicate running on A's thread
+            if code.co_filename.startswith(pkg) or (code.co_filename == __file__ and code.co_name in ('pred', 'body')):
+                return local
+            return None
+        sys.settrace(glob)
+        try:
+            ra = results(e, docA)
+        finally:
+            sys.settrace(None)
+        return ra, state['rb'], state['n']
+
+    _, _, total = traced(None, _build_path(cx, case['path']))
+    points = list(range(1, total + 1))
+    limit = case.get('points', 120)
+    if len(points) > limit:
+        step = len(points) / float(limit)
+        points = sorted(set(int(1 + i * step) for i in range(limit)))
+    bad = []
+    for n in points:
+        e = _build_path(cx, case['path'])        # a path object never evaluated before
+        ra, rb, _ = traced(n, e)
+        if ra != aloneA or (rb is not None and rb != aloneB):
+            bad.append(n)
+            if len(bad) >= 3:
+                break
+    cx.drain()
+    if bad:
+        return ON("p", [ON("interference", [OZ(n) for n in bad]), OZ(total)])
+    return ON("p", [ON("ok"), OZ(total)])
